@@ -58,20 +58,30 @@ RULE = ("random ADMGs with 2-6 nodes (isolated nodes, bidirected-only nodes, bow
 ASSUMPTIONS = [
     "trso_sound (estimand = P*(y|do(x)) in every compatible family) is OPEN: only 'line 1 is marginalisation of the carried "
     "distribution' (line1_den) is proved; the clause rests on the correspondence + exact multi-domain oracle",
-    "trso_no_surrogate_iff_id (verdict = ID's verdict when no experiment is usable) is OPEN; proved is only that without "
-    "declared experiments every leaf is a target observational term (trso_no_domains_target_only); the verdict is compared "
-    "with the real identify_outcomes on every no-surrogate case",
-    "trso_no_internal_error is OPEN: the model makes every raise explicit and trsoF_error_internal / identify_trichotomy "
-    "classify the outcomes; that no internal error is reachable from identify_target_outcomes on valid input (including "
-    "that the recursion budget Query.fuel suffices) is checked by the correspondence, not proved",
+    "trso_no_surrogate_iff_id: the VERDICT part is proved (trso_no_surrogate_iff_id_partial, "
+    "trso_no_surrogate_none_iff_id_partial: with no declared experiment the model of TRSO returns an estimand exactly when "
+    "the model of ID does, and 'no estimand' exactly when ID raises Unidentifiable); that both estimands denote the same "
+    "function is OPEN (needs denotation lemmas for the TrDsl operators; fraction cancellation needs positivity); the "
+    "verdict is also compared with the real identify_outcomes on every no-surrogate case",
+    "trso_no_internal_error: proved for inputs whose source domains declare no experiment "
+    "(trso_no_internal_error_partial) and, for ALL validated inputs, up to one raise site "
+    "(trso_only_activate_error_partial: the only error that can remain is the NotImplementedError that "
+    "activate_domain_and_interventions raises on One(); no KeyError / NetworkX error / RuntimeError / ZeroDivisionError / "
+    "TypeError / AttributeError / ValueError / RecursionError: the budget Query.fuel provably exceeds a decreasing "
+    "measure). OPEN: that the estimand found inside a source domain never contains One(). Hypotheses: graph well-formed "
+    "and acyclic, node names below 100 (the harness's name table; selection nodes are 200 + v), Y non-empty",
+    "the theorems about `are_d_separated` used for the phase after line 6 are about the model Trso.dSeparated "
+    "(moralisation test), tied to the Python by the `separated` helper correspondence",
     "the rule placing selection nodes, (De(Z_i) - W_i) u (C(W_i) - An(W_i) in G[bar Z_i]), is taken from the paper as "
     "restated in the docstring and re-implemented independently in the oracle; families differ from the target only in "
     "the mechanisms (kernels given parents and latents) at marked nodes",
     "model class of the oracle and of Spec/FamilySpec: discrete variables, positive rational parameters, independent "
     "root latents (one per bidirected edge, sometimes one per bidirected triangle)",
     "'the caller's objects are unchanged' is a Python-runtime clause (R) checked on every call, not a theorem",
-    "Python iterates sets in hash order; the model iterates in name order; theorems about the model hold for the "
-    "model's order, equality of VALUES with the Python's order is checked by exact evaluation",
+    "Python iterates sets in hash order (in particular networkx' topological_sort of graphs rebuilt from sets); the model "
+    "iterates in name order; theorems about the model hold for the model's order, equality of VALUES with the Python's "
+    "order is checked by exact evaluation (about 7% of the estimands agree by value only; the Product.safe sort key of the "
+    "model is the fixed total _get_key since round 2)",
 ]
 LEANCHECK_MODULES = ["Y0.Model.TrDsl", "Y0.Model.Trso", "Y0.Props.C05", "Y0.Props.C06Transport"]
 EXHAUSTIVE = {"quick": False, "thorough": False}
@@ -876,11 +886,20 @@ atexit.register(_report)
 
 MANIFEST = {
     "text": ("Partial proof. Lean theorems about the executable model of transport.py (Y0.Model.Trso / TrDsl, tied to the code "
-             "by the correspondence check on every run; 16 theorems in Props/C05 + 19 in Props/C06Transport): "
-             "(1) totality and error taxonomy - the recursion is structural on an explicit budget and every outcome is an "
-             "estimand, 'no estimand' or an INTERNAL error (trsoF_error_internal); identify_target_outcomes raises the "
-             "documented ValueError exactly on invalid input (identify_invalid_iff) and otherwise obeys the trichotomy "
-             "estimand / no estimand / internal error (identify_trichotomy); "
+             "by the correspondence check on every run; 22 theorems in Props/C05 + 19 in Props/C06Transport): "
+             "(1) totality and error taxonomy - every outcome of the recursion is an estimand, 'no estimand' or an INTERNAL "
+             "error (trsoF_error_internal); identify_target_outcomes raises the documented ValueError exactly on invalid "
+             "input (identify_invalid_iff, identify_trichotomy); "
+             "(1b) 'never fails other than by no estimand': PROVED for every validated input whose source domains declare no "
+             "experiment (trso_no_internal_error_partial), and for ALL validated inputs up to one raise site "
+             "(trso_only_activate_error_partial): the only exception that can remain is the NotImplementedError of "
+             "activate_domain_and_interventions on One(); every look-up, ancestor computation, separation test, "
+             "topological sort, index and expression operator succeeds, and the recursion budget exceeds a lexicographic "
+             "measure that decreases at every call (invariants: node sets preserved, selection nodes parentless, after "
+             "line 6 every child of a selection node is a target intervention - from the positive separation test); "
+             "(1c) with no usable surrogate experiment TRSO returns an estimand exactly when ID does, and 'no estimand' "
+             "exactly when ID refuses (trso_no_surrogate_iff_id_partial, trso_no_surrogate_none_iff_id_partial: lock-step "
+             "simulation with the ID model of C01/C02); "
              "(2) selection diagrams - create_transport_diagram adds exactly one parentless selection node T_v -> v per marked "
              "variable and nothing else; get_nodes_to_transport returns exactly (De(Z)-W) u (C(W)-An(W) in G[bar Z]) and is "
              "defined whenever Z, W are inside the graph; "
@@ -890,10 +909,11 @@ MANIFEST = {
              "a selection node; without declared experiments only target terms occur (trso_no_domains_target_only); "
              "(4) semantics - Sum.safe denotes the iterated sum and line 1 is marginalisation of the carried distribution "
              "(den_sumSafe, line1_den). NOT proved (stated as OPEN in Props/C05.lean): soundness of the recursion in every "
-             "compatible SCM family (trso_sound), equality of the no-surrogate verdict with ID's, and that no internal error "
-             "is reachable on valid input. These clauses are decided on every run by the correspondence plus the "
+             "compatible SCM family (trso_sound), that the two estimands of (1c) denote the same function, and that "
+             "activate never meets One(). These clauses are decided on every run by the correspondence plus the "
              "exact-rational multi-domain oracle, which evaluates every returned estimand at every value assignment on two "
-             "random compatible families, by comparison with identify_outcomes on every no-surrogate case, and by treating "
+             "random compatible families, by an independent re-computation of get_nodes_to_transport for every declared "
+             "domain of every case, by comparison with identify_outcomes on every no-surrogate case, and by treating "
              "any exception on valid input as a violation. Four defects found by this check were repaired on branch "
              "fix-transport (known_findings.jsonl); their witnesses stay in the corpus."),
     "note": ("Trusted: Lean kernel; axioms propext/Classical.choice/Quot.sound; the hand-written models of transport.py, of the "
